@@ -101,7 +101,7 @@ query Things { things { __typename ... on User { ...UserF ...UserG ...Userg } ..
 query GetUser($f: Filter, $c: Color, $d: Date) { user(f: $f, c: $c, d: $d) { ...All } }
 query NodeAbs($id: ID!) { node(id: $id) { id ... on Named { name } ... on Dog { barks } } }
 query Search($kind: Kind) { search(kind: $kind) { ... on User { name } ... on Dog { barks } } }
-mutation Save($input: SaveInput!) { save(input: $input) { id born } }
+mutation Save($input: SaveInput!) { save(input: $input) @mixin(from: ".mx", import: "MixA") @mixin(from: ".mx", import: "MixB") @mixin(from: ".mx", import: "MixA") { id born } }
 fragment UserF on User { id name }
 fragment UserG on User { color kind }
 fragment BotF on Bot { model }
